@@ -105,6 +105,32 @@ class Contract:
         return len(self.requires) + len(self.ensures) + len(self.raises) + len(self.may_raise) + len(self.ensures_raise)
 
 
+CLAUSE_NAMES = {"requires", "ensures", "raises", "may_raise", "ensures_raise", "modifies", "invariant", "loop_modifies",
+                "decreases", "captures", "types", "assumes", "option"}
+
+
+class Harness:
+    """a proof harness: sidecar code that calls the REAL functions on fully symbolic inputs (loop-free => complete proof).
+    Clause calls in its body form the contract; the remaining statements are executed by the engine in the namespace of
+    the repository module `module` (so repository names resolve exactly as they do there)."""
+
+    def __init__(self, name, fn: ast.FunctionDef, module: str, file: str, prop: str):
+        self.name, self.module, self.file, self.property = name, module, file, prop
+        clause_stmts, body = [], []
+        for st in fn.body:
+            if (isinstance(st, ast.Expr) and isinstance(st.value, ast.Call) and isinstance(st.value.func, ast.Name)
+                    and st.value.func.id in CLAUSE_NAMES):
+                clause_stmts.append(st)
+            else:
+                body.append(st)
+        cfn = ast.FunctionDef(name=fn.name, args=fn.args, body=clause_stmts or [ast.Pass()], decorator_list=[], returns=None, lineno=fn.lineno, col_offset=0)
+        self.contract = Contract(f"harness:{name}", cfn, file, prop)
+        self.contract.assumed = False
+        self.contract.extra_props = []
+        self.fn = ast.FunctionDef(name=fn.name, args=fn.args, body=body or [ast.Pass()], decorator_list=[], returns=fn.returns, lineno=fn.lineno, col_offset=0)
+        ast.fix_missing_locations(self.fn)
+
+
 class ClassInvariant:
     def __init__(self, cls_target, fn, file):
         self.cls_target, self.file = cls_target, file
@@ -133,6 +159,8 @@ class ContractDB:
         self.assumptions: list[str] = []
         self.files: list[str] = []
         self.spec_funcs: dict[str, ast.FunctionDef] = {}
+        self.harnesses: dict[str, Harness] = {}
+        self.stub_classes: dict[str, dict] = {}  # shapes of objects from outside the repository (process handles ...)
         self.owned_fields: set[str] = set()  # container-valued fields with an ownership ghost (container -> its object)
         self.owning: set[str] = set()  # dict-valued fields with an ownership ghost (value object -> its key)
         from . import models
@@ -141,8 +169,8 @@ class ContractDB:
             for f in sorted(glob.glob(os.path.join(directory, "*.py"))):
                 self.load(f)
 
-    def load(self, path):
-        text = open(path).read()
+    def load(self, path, text=None):
+        text = open(path).read() if text is None else text
         tree = ast.parse(text)
         self.files.append(path)
         prop = ""
@@ -159,6 +187,8 @@ class ContractDB:
                     d = self.field_types.setdefault(c.args[0].value, {})
                     for k in c.keywords:
                         d[k.arg] = k.value
+                elif n == "stub_class":
+                    self.stub_classes[c.args[0].value] = {k.arg: k.value for k in c.keywords}
                 elif n == "owned_field":
                     for a in c.args:
                         self.owned_fields.add(a.value)
@@ -171,6 +201,8 @@ class ContractDB:
                     self.externals.setdefault("__classes__", set()).add(c.args[0].value)
             elif isinstance(node, ast.FunctionDef):
                 for d in node.decorator_list:
+                    if isinstance(d, ast.Name) and d.id == "spec":
+                        self.spec_funcs[node.name] = node
                     if isinstance(d, ast.Call) and isinstance(d.func, ast.Name):
                         if d.func.id in ("contract", "assumed"):
                             tgt = d.args[0].value
@@ -180,6 +212,11 @@ class ContractDB:
                             # an ASSUMED contract is used at call sites but never verified: listed as an assumption
                             self.contracts[tgt].assumed = d.func.id == "assumed"
                             self.contracts[tgt].extra_props = [e.value for e in kw["also"].elts] if "also" in kw else []
+                        elif d.func.id == "harness":
+                            kw = {k.arg: k.value for k in d.keywords}
+                            h = Harness(d.args[0].value, node, kw["module"].value, path, kw["prop"].value if "prop" in kw else prop)
+                            self.harnesses[h.name] = h
+                            self.contracts[f"harness:{h.name}"] = h.contract
                         elif d.func.id == "class_invariant":
                             self.class_invariants[d.args[0].value] = ClassInvariant(d.args[0].value, node, path)
                         elif d.func.id == "spec":
